@@ -1,4 +1,5 @@
 """Rules S1-S6 for the sorted-unique containers (DESIGN.md 5 C09), decided on the structural paths of the AST."""
+import re
 from .. import astx
 
 ORDER_ALGOS = {"lower_bound": 4, "upper_bound": 4, "equal_range": 4, "binary_search": 4, "sort": 3, "stable_sort": 3,
@@ -457,7 +458,8 @@ def s7_insert_result(chk, db, rec_q, funcs):
                         lcn.add(ev[1]["n"])
                     elif any(astx.callee(c)[0] in ("lower_bound", "find") for c in calls_in(init)):
                         pos_vars.add(ev[1]["n"])
-                    elif not calls_in(init) or ev[1]["ty"] in ("Key", "value_type", "key_type") or "Key{" in astx.show(init, 30):
+                    elif not calls_in(init) or ev[1]["ty"] in ("Key", "value_type", "key_type") or \
+                            re.match(r"\s*(Key|value_type|key_type)\s*[{(]", astx.show(init, 30)):
                         keys.add(ev[1]["n"])      # auto key = Key{args...};
                 if ev[0] == "cond" and pos_vars and mentions(ev[1], pos_vars):
                     t = pred_truth(_subst_end_tests(ev[1]), pos_vars, keys, lcn, "=")
